@@ -2,6 +2,7 @@
 //! old-vs-new codec comparison (C19).
 //!   replay_wire proj     cases {"in":{"m":[..],"starts":[..]},"exp":Projection,"dev":{..}}
 //!   replay_wire orders   cases {"in":{"m":[..],"ops":[..]},"exp":[result per op]}
+//!   replay_wire pair     cases {"in":{"a":[..],"b":[..]},"exp":PairProj,"dev":{..}}   (MsgPair.tla)
 //!   replay_wire codec    cases {"in":{"m":[..],"starts":[..]},"exp":CodecView,"dev":{..}}
 #[path = "../wire.rs"]
 mod wire;
@@ -9,6 +10,8 @@ mod wire;
 mod wire_new;
 #[path = "../wire_cursor.rs"]
 mod wire_cursor;
+#[path = "../wire_pair.rs"]
+mod wire_pair;
 
 use serde_json::json;
 use verif_harness::common::*;
@@ -35,6 +38,15 @@ fn main() {
             print_summary(&t, json!({"battery_hangs_observed": wd.hangs}));
             std::process::exit(0);
         }
+        "pair" => {
+            fn mk() -> CaseFn {
+                Box::new(|input, _dev| wire_pair::pair_projection_twice(&bytes_of(&input["a"]), &bytes_of(&input["b"])))
+            }
+            let mut wd = Watchdog::new(mk, 12);
+            let t = run_component_cases(|input, dev| wd.call(input, dev));
+            print_summary(&t, json!({"battery_hangs_observed": wd.hangs}));
+            std::process::exit(0);
+        }
         "codec" => {
             fn mk() -> CaseFn {
                 Box::new(|input, _dev| {
@@ -55,7 +67,7 @@ fn main() {
             std::process::exit(0);
         }
         _ => {
-            eprintln!("usage: replay_wire proj|orders|codec");
+            eprintln!("usage: replay_wire proj|orders|pair|codec");
             std::process::exit(2);
         }
     }
